@@ -201,8 +201,20 @@ func (db *DB) Get(key []byte) (kv.Entry, error) {
 
 func (db *DB) ScanPrefix(prefix []byte, errOut *error) iter.Seq[kv.Entry] {
 	sstables := db.currentSSTables()
-	iters := []iter.Seq[kv.Entry]{db.mtables.ScanPrefix(prefix, errOut), sstables.ScanPrefix(prefix, errOut)}
-	return kv.MergeEntries(iters)
+	iters := []iter.Seq[kv.Entry]{db.mtables.ScanPrefix(prefix, errOut), sstables.ScanPrefixWithTombstones(prefix, errOut)}
+
+	// Delete markers take part in the merge so that a newer delete hides an older
+	// put; they are dropped from the result.
+	return func(yield func(kv.Entry) bool) {
+		for entry := range kv.MergeEntries(iters) {
+			if entry.IsDelete() {
+				continue
+			}
+			if !yield(entry) {
+				return
+			}
+		}
+	}
 }
 
 // Checkpoint initiates a DB checkpoint associated with the caller's provided
